@@ -949,7 +949,8 @@ class Constraints:
             rounded = round(value, decimals - delta)
             # rounding up can carry into a new digit (9.96 -> 10.0), so check the rounded value again
             r_digits, r_decimals = cls._parse_decimal(rounded)
-            if r_digits > max_digits and r_decimals < decimals:
+            if r_digits > max_digits and rounded != value:
+                # (a float keeps its '.0' when rounded to 0 places: 99.6 -> 100.0 must be checked like Decimal('100'))
                 return cls.lax_max_digits(rounded, max_digits)
             return rounded
         raise ValueError
